@@ -25,9 +25,9 @@ PROP_OF = {"c01": "C01", "c17": "C17", "c20": "C20", "hostile": "C03"}
 PARAMS = {
     ("c01", "quick"):    dict(MAXDIM=3, NVAR=12, STRIDE=1, MAXHIST=5),
     ("c01", "thorough"): dict(MAXDIM=4, NVAR=24, STRIDE=1, MAXHIST=5),
-    ("c17", "quick"):    dict(MAXDIM=3, NVAR=3, STRIDE=1, MAXHIST=5),
+    ("c17", "quick"):    dict(MAXDIM=3, NVAR=2, STRIDE=1, MAXHIST=5),
     ("c17", "thorough"): dict(MAXDIM=4, NVAR=8, STRIDE=1, MAXHIST=5),
-    ("c20", "quick"):    dict(MAXDIM=3, NVAR=1, STRIDE=97, MAXHIST=5),
+    ("c20", "quick"):    dict(MAXDIM=3, NVAR=1, STRIDE=131, MAXHIST=5),
     ("c20", "thorough"): dict(MAXDIM=3, NVAR=1, STRIDE=11, MAXHIST=5),
     # calls out of order, refused / unclassified standards, partial S: for
     # the aggregate C03 / C11 checks (issues carry C03 and C11 only)
